@@ -33,11 +33,13 @@ TAGS = {
     41: 'candidate names not unique',
     42: 'exhaustive: a candidate with several features gets its functions as an unordered set although they are zipped with the keys',
     78: 'MFL: Transits.__eq__ does not return the truth value of equality',
+    79: 'MFL: a text of the grammar is answered with an internal error instead of being read or refused',
     51: 'stepwise: a path is not allowed by the documented rules (feature repeated / category used twice / excluded combination)',
     52: 'stepwise: peripheral compartments not added one at a time in increasing order',
     53: 'stepwise: an allowed path is missing or a path occurs twice',
     54: 'stepwise: candidate names not unique / not numbered in creation order',
     55: 'reduced_stepwise: two candidates with the same features are both extended (no choose_best_model between them)',
+    62: 'covsearch: a step does not offer exactly the remaining (parameter, covariate, effect) candidates',
     61: 'iivsearch: candidates are not exactly the non-empty eta subsets / block partitions (minus the base structure)',
     71: 'MFL: parse(stringify(parse(s))) differs from parse(s)',
     72: 'MFL: a + b does not denote the union of the expanded feature combinations',
